@@ -412,6 +412,10 @@ func runC01(c *c01Case) (v *vcommon.Violation, labels []string, nontrivial, inco
 		var first string
 		for i, path := range []int{pOwnerEmb, pOtherEmb, pCluster, pOtherRaw} {
 			g := (&pathClient{cl: cl, dmap: name, path: path, pick: i}).get(ctx, k)
+			if strings.HasPrefix(g.Err, "other:") {
+				// a read that failed at the transport level (timeout on a loaded machine) decides nothing
+				return nil, labels, nontrivial, true
+			}
 			s := g.Err + "|" + string(g.Val)
 			if i == 0 {
 				first = s
